@@ -262,6 +262,12 @@ func (x *Exec) inline(fr *Frame, st *State, fn *ssa.Function, args []Value, nbin
 func (x *Exec) unknownCall(fr *Frame, st *State, key string, sig *types.Signature, args []Value, pos token.Pos, k func(*State, Value)) {
 	x.note("unknown callee %s: results unconstrained, no heap effect assumed", key)
 	x.unknown[key] = true
+	// Frame rule (C12, C20): in a function whose frame is checked (it has an assigns clause) a callee
+	// that is neither under contract nor inlined must not be handed shared mutable state: a method of
+	// a sync / sync/atomic object, or a pointer to one of the engine's own structs.
+	if fc := x.curFunc; fc != nil && fc.contract != nil && fc.contract.HasAssigns && mayWriteShared(sig) {
+		x.oblige(st, "effect", "unverified callee may write shared state: "+shortKey(key), TFalse, []string{"C12", "C20"}, pos)
+	}
 	k(st, x.freshResults(st, sig, key))
 }
 
@@ -824,4 +830,30 @@ func (x *Exec) copyOp(st *State, args []Value, pos token.Pos) Value {
 		x.setHeap(st, key, Store(arr, d.Ptr, nrow))
 	}
 	return &Prim{T: n}
+}
+
+// mayWriteShared: the signature hands the callee a pointer to a sync/atomic object or to a struct
+// declared in the engine's module.
+func mayWriteShared(sig *types.Signature) bool {
+	shared := func(t types.Type) bool {
+		p, ok := t.Underlying().(*types.Pointer)
+		if !ok {
+			return false
+		}
+		n, ok := p.Elem().(*types.Named)
+		if !ok || n.Obj().Pkg() == nil {
+			return false
+		}
+		path := n.Obj().Pkg().Path()
+		return path == "sync" || path == "sync/atomic" || strings.HasPrefix(path, "github.com/thanos-community/promql-engine")
+	}
+	if r := sig.Recv(); r != nil && shared(r.Type()) {
+		return true
+	}
+	for i := 0; i < sig.Params().Len(); i++ {
+		if shared(sig.Params().At(i).Type()) {
+			return true
+		}
+	}
+	return false
 }
